@@ -663,6 +663,7 @@ func main() {
 		r          reloadT
 	}
 	var rawReloads []rawReload
+	aliasUsed := map[string]bool{}
 
 	pairField := func(a, b ast.Expr) (string, bool) {
 		fa, ok1 := selOf(a, nw)
@@ -693,6 +694,18 @@ func main() {
 		}
 		if u, ok := e.(*ast.UnaryExpr); ok && u.Op == token.NOT {
 			if c, ok := u.X.(*ast.CallExpr); ok && len(c.Args) == 2 {
+				// !h(newConf.F, currentConf.F) with h a function of this package: a value comparison only
+				// if h is literally `return reflect.DeepEqual(a, b)`; otherwise the extractor cannot vouch for
+				// what h detects (kind unknown: the decided coverage conditions then fail)
+				if h, ok := c.Fun.(*ast.Ident); ok {
+					if f, ok := pairField(c.Args[0], c.Args[1]); ok {
+						kind := "unknown"
+						if helperIsDeepEqual(file, h.Name) {
+							kind = "value"
+						}
+						return cmpT{field: f, op: "helper " + h.Name, tkind: confTypes[f].kind + " " + confTypes[f].text, kind: kind}, true
+					}
+				}
 				if s, ok := c.Fun.(*ast.SelectorExpr); ok {
 					op := ""
 					if isIdent(s.X, "reflect") && s.Sel.Name == "DeepEqual" {
@@ -781,6 +794,12 @@ func main() {
 						fl.depFlags = addUniq(fl.depFlags, id.Name)
 						continue
 					}
+					// `newConf != nil && <comparison>`: the nil test only protects the dereference
+					if conj := flatten(d, token.LAND); len(conj) == 2 {
+						if b, ok := conj[0].(*ast.BinaryExpr); ok && b.Op == token.NEQ && isIdent(b.X, nw) && isIdent(b.Y, "nil") {
+							d = conj[1]
+						}
+					}
 					c, ok := parseCmp(d)
 					if !ok {
 						die("closeResources: %s has a disjunct the extractor does not understand (line %d)",
@@ -814,6 +833,15 @@ func main() {
 				if cm, ok := parseCmp(c); ok {
 					cmp = &cm
 					continue
+				}
+				// a variable defined above as a single comparison (`pathConfsChanged := …`)
+				if id, ok := c.(*ast.Ident); ok {
+					if al := flagByName[id.Name]; al != nil && len(al.cmp) == 1 && len(al.depFlags) == 0 && !al.shutdown {
+						cm := al.cmp[0]
+						cmp = &cm
+						aliasUsed[id.Name] = true
+						continue
+					}
 				}
 				other = true
 			}
@@ -856,20 +884,33 @@ func main() {
 		}
 		byName[rr.comp].reloads = append(byName[rr.comp].reloads, rr.r)
 	}
+	isAlias := func(fl *flagT) bool {
+		_, closes := flagComp[fl.name]
+		return !closes && len(fl.cmp) == 1 && len(fl.depFlags) == 0 && !fl.shutdown
+	}
 	for _, fl := range flags {
 		cn, ok := flagComp[fl.name]
 		if !ok {
+			if isAlias(fl) {
+				continue
+			}
 			die("closeResources: flag %s closes nothing", fl.name)
 		}
 		k := byName[cn]
 		k.flag, k.cmp, k.shutdown = fl.name, fl.cmp, fl.shutdown
 		for _, d := range fl.depFlags {
+			if al := flagByName[d]; isAlias(al) {
+				k.cmp = append(k.cmp, al.cmp[0])
+				continue
+			}
 			k.deps = append(k.deps, flagComp[d])
 		}
 	}
 	var flagOrder []string
 	for _, fl := range flags {
-		flagOrder = append(flagOrder, flagComp[fl.name])
+		if c, ok := flagComp[fl.name]; ok {
+			flagOrder = append(flagOrder, c)
+		}
 	}
 	for _, k := range comps {
 		if k.flag == "" {
@@ -1067,6 +1108,34 @@ func main() {
 		die("%v", err)
 	}
 	fmt.Printf("xlate/c13: %d components, %d fields, %d conf tokens\n", len(comps), len(fieldNames), total)
+}
+
+// helperIsDeepEqual: func h(a, b T) bool { return reflect.DeepEqual(a, b) }
+func helperIsDeepEqual(file *ast.File, name string) bool {
+	fn := findFunc(file, "", name)
+	if fn == nil || len(fn.Body.List) != 1 {
+		return false
+	}
+	var params []string
+	for _, f := range fn.Type.Params.List {
+		for _, n := range f.Names {
+			params = append(params, n.Name)
+		}
+	}
+	ret, ok := fn.Body.List[0].(*ast.ReturnStmt)
+	if !ok || len(ret.Results) != 1 || len(params) != 2 {
+		return false
+	}
+	c, ok := ret.Results[0].(*ast.CallExpr)
+	if !ok || len(c.Args) != 2 {
+		return false
+	}
+	s, ok := c.Fun.(*ast.SelectorExpr)
+	if !ok || !isIdent(s.X, "reflect") || s.Sel.Name != "DeepEqual" {
+		return false
+	}
+	return (isIdent(c.Args[0], params[0]) && isIdent(c.Args[1], params[1])) ||
+		(isIdent(c.Args[0], params[1]) && isIdent(c.Args[1], params[0]))
 }
 
 func unwrapLit(e ast.Expr) (*ast.CompositeLit, bool) {
